@@ -838,7 +838,7 @@ def nd_getattr(I, st, ref, name):
                 if any(x is None for x in ee.data):
                     return exc("TypeError", "int() argument must be a string, a bytes-like object or a real number, not 'NoneType'")
                 if all(is_intlike(x) for x in ee.data):
-                    ne = NdE(ee.shape, ee.data)
+                    ne = NdE(ee.shape, [as_arith(x) for x in ee.data])  # booleans become 0 / 1
                     ne.dtype = "i"
                     return st.alloc(mark_layout(st, ne, (ref,)))
                 if all(is_number(x) and not is_boollike(x) for x in ee.data):
@@ -973,6 +973,16 @@ def make_module(I):
                 return st.alloc(e)
         r = mk(I, st, to_nested(I, st, v), dt)
         mark_layout(st, st.get(r), (v,))  # np.array(a) copies in order 'K': the memory order of a
+        if isinstance(dtype, BuiltinClass) and dtype.name == "int":
+            # dtype=int CONVERTS the elements: floats are truncated toward zero, booleans become 0 / 1
+            e = st.get(r)
+            if dtype_of(e) not in ("i", "f", "b"):
+                raise Unsupported("np.array(dtype=int) of non-numeric elements")
+            data = list(e.data)
+            e.dtype = "i"
+            e.data = [cast_elem(I, st, e, x) for x in data]
+            if any(isinstance(x, Exc) for x in e.data):
+                raise Unsupported("np.array(dtype=int) of an element that is not a number")
         return r
 
     reg("array", array)
@@ -1066,7 +1076,12 @@ def make_module(I):
                     out.append(r)
                 yield cur, cur.alloc(mark_layout(cur, NdE(e.shape, out), (v,)))
             else:
-                yield from fn(I, st, v)
+                # numpy functions do not raise on a scalar outside the domain either (np.sqrt(-1.0) is nan with a
+                # RuntimeWarning, math.sqrt(-1.0) raises ValueError): outside the real-number model
+                for st1, r in fn(I, st, v):
+                    if isinstance(r, Exc):
+                        raise Unsupported("numpy function of a scalar that may be outside its domain (nan)")
+                    yield st1, r
 
         return f
 
@@ -1272,7 +1287,22 @@ def make_module(I):
         raise Unsupported("np.isnan of %r" % (v,))
 
     reg("isnan", _isnan)
-    reg("isfinite", lambda I, st, v: True)
+    def _isfinite(I, st, v):
+        """A1: every modelled real is finite; nan and +-inf are not"""
+        M = _M()
+        fin = lambda x: not (is_nan(x) or isinstance(x, M.Inf))
+        if isinstance(v, Ref) and st.get(v).kind == "nd":
+            e = st.get(v)
+            if not all(is_number(x) or is_nan(x) or isinstance(x, M.Inf) for x in e.data):
+                raise Unsupported("np.isfinite of a non-numeric array")
+            r = NdE(e.shape, [fin(x) for x in e.data])
+            r.dtype = "b"
+            return st.alloc(mark_layout(st, r, (v,)))
+        if is_number(v) or is_nan(v) or isinstance(v, M.Inf):
+            return fin(v)
+        raise Unsupported("np.isfinite of %r" % (v,))
+
+    reg("isfinite", _isfinite)
 
     def _interp(I, st, x, xp, fp, left=None, right=None, period=None):
         """np.interp(x, xp, fp) for a SCALAR x (concrete or symbolic real) over a CONCRETE non-decreasing table xp and a
@@ -1334,6 +1364,9 @@ def make_linalg(I):
     L = {}
 
     def norm(I, st, a, k):
+        if len(a) != 1 or k:
+            # ord / axis / keepdims change the result (1-norm, max-norm, per-row norms): only the default is modelled
+            raise Unsupported("np.linalg.norm with ord / axis / keepdims")
         s, d = asnd(I, st, a[0])
         tot = 0
         for x in d:
